@@ -36,7 +36,8 @@ struct Target {
   bool named; std::string dir; unsigned n = 0; int comp;
   std::vector<std::string> finals;   // path under which each output must be found
   std::string last_base;
-  std::string next_name(bool same = false) { std::string b = same && !last_base.empty() ? last_base : dir + "/w" + std::to_string(comp) + "_" + std::to_string(n++); last_base = b; finals.push_back(named ? b + EXT[comp] : b); return b; }
+  // every third name carries the text of a compression suffix in its middle (".gz." / ".xz."): the suffix is appended all the same
+  std::string next_name(bool same = false) { std::string b = same && !last_base.empty() ? last_base : dir + "/w" + std::to_string(comp) + "_" + std::to_string(n) + (n % 3 == 1 ? (n % 2 ? ".gz.d" : ".xz.0001") : ""); if (!(same && !last_base.empty())) n++; last_base = b; finals.push_back(named ? b + EXT[comp] : b); return b; }
   int open_fd(const std::string& p) { int fd = ::open(p.c_str(), O_WRONLY | O_CREAT | O_TRUNC, 0644); if (fd < 0) { perror("open"); abort(); } return fd; }
 };
 
